@@ -427,6 +427,31 @@ def _slice_region(n):
     return None
 
 
+def _skip_leading(n):
+    """&s[s.as_bytes().iter().position(|&b| b != C)..] for an ASCII C: s without its leading C's  ->  (C, s) else None.
+    (position gives the first byte that is not C; all bytes before it are the one-byte char C, so it is a char boundary;
+    together with the `None => ""` arm this is s.trim_start_matches(C).)"""
+    if n[0] != "call" or n[1] != STR_INDEX or len(n[2]) != 2:
+        return None
+    s_, rg = n[2]
+    if not (rg[0] == "agg" and rg[1][0] == "adt" and rg[1][1] == "std::ops::RangeFrom" and len(rg[2]) == 1):
+        return None
+    pos = rg[2][0]
+    if not (pos[0] in ("some", "ok") and pos[1][0] == "call" and pos[1][1].endswith("::position") and "slice::Iter" in pos[1][1] and len(pos[1][2]) == 2):
+        return None
+    it, clo = pos[1][2]
+    while it[0] == "var" and len(it) > 2:
+        it = it[2]
+    if not (it[0] == "call" and it[1] == "core::slice::<impl [T]>::iter" and it[2][0][0] == "call" and it[2][0][1] == STR + "as_bytes" and it[2][0][2][0] == s_):
+        return None
+    if clo[0] not in ("closure", "fn"):
+        return None
+    oc = _only_char(("bytes", clo[1]), "any", True)   # `any(pred)` is false exactly on strings made of C only
+    if oc is None or oc[1] is not False:
+        return None
+    return (oc[0], s_)
+
+
 def _item(c, r):
     """an element of r.split(c).  Trimming c off the ends of r first only removes empty elements at the ends; the rules
     that use items require the empty element to be skipped anyway (skip-set obligations of C02/C07), so the trimmed and
@@ -500,7 +525,15 @@ def _region(n):
             elif x not in leaves:
                 leaves.append(x)
         flat(n)
+        # { "", &s[first non-C byte..] }  ==  s.trim_start_matches(C)
         rs = []
+        if ("const", "") in leaves:
+            for x in list(leaves):
+                sk = _skip_leading(x)
+                if sk is not None:
+                    leaves = [y for y in leaves if y != x and y != ("const", "")]
+                    rs.append(("TrimStart", sk[0], _region(sk[1])))
+                    break
         for x in leaves:
             r = _region(x)
             if r[0] == "Phi":
@@ -633,6 +666,10 @@ def returns(body):
 def classify_return(n):
     """('ok', payload) | ('err', errterm) | ('propagate', callterm_of_failed_result) | ('tail', callterm) | ('other', n)"""
     if n[0] == "agg" and n[1][0] == "adt" and n[1][1] == "std::result::Result":
+        if n[1][2] == "Err" and len(n[2]) == 1 and n[2][0][0] == "err" and n[2][0][1][0] == "from_residual":
+            # Err(e) with e the error of a value that `?` produced (`r @ Err(_) => return r` spelled `Err(e) => return Err(e)`,
+            # as the model of std's try_fold does): the same as handing that value on
+            return classify_return(n[2][0][1])
         return ("ok" if n[1][2] == "Ok" else "err", n[2][0])
     if n[0] == "agg" and n[1][0] == "adt" and n[1][1] == "std::option::Option":
         return ("some" if n[1][2] == "Some" else "none", n[2][0] if n[2] else None)
@@ -642,6 +679,8 @@ def classify_return(n):
             x = e[1]
             # `Err(e)?` (the residual of a value built as Err right here): returns Err(From::from(e))
             if x[0] == "agg" and x[1][0] == "adt" and x[1][1] == "std::result::Result" and x[1][2] == "Err" and len(x[2]) == 1:
+                if x[2][0][0] == "err" and x[2][0][1][0] == "from_residual":
+                    return classify_return(x[2][0][1])   # the error of a value that `?` produced, wrapped again and re-raised
                 return ("err", x[2][0])
             return ("propagate", e[1])
         return ("propagate", e)
@@ -750,6 +789,17 @@ def parser_model(facts):
     if body.back_edges():
         raise AnchorError("from_str contains a loop; the term dataflow of the parser model assumes a loop-free body", key)
     pm = {"key": key, "body": body, "sinks": {}, "calls": [], "guards": [], "returns": []}
+    # the region reading of `match bytes.position(p) { Some(i) => &s[i..], None => "" }` as a leading trim (_skip_leading)
+    # merges the "" of the None arm into the slice: an empty-string constant stored anywhere else in the parser would be
+    # merged with it, so there must be none
+    for bi, bl in enumerate(body.blocks):
+        if bl["cleanup"] or bl.get("dead"):
+            continue
+        for st_ in bl["stmts"]:
+            if st_.get("s") == "assign" and st_["rv"]["r"] == "use" and st_["rv"]["op"]["o"] == "const" and st_["rv"]["op"]["c"].get("v") == "" and st_["rv"]["op"]["c"].get("ty", "").startswith("&") and "str" in st_["rv"]["op"]["c"].get("ty", ""):
+                ats = [a for _, a in atoms_at(body, bi)]
+                if not any(a[0] == "is" and a[-1] == "None" and a[1][0] == "call" and a[1][1].endswith("::position") for a in ats):
+                    raise AnchorError("from_str stores an empty string constant outside the `position(..) == None` arm of a leading trim", key)
     # the PurlParts accumulator: a var local of type PurlParts
     parts_locals = [i for i, l in enumerate(body.locals) if l["ty"] == "PurlParts" and i in body.mut_locals()]
     if len(parts_locals) != 1:
